@@ -467,6 +467,44 @@ func main() {
 		}})
 	}
 
+	// look-ups in lists longer than any small-list fast path (24 keys), by all goroutines at once: Verifiers, Signers and
+	// KeySet are plain slices shared by reference; a look-up reads them and returns the entry for exactly that kid
+	{
+		var ks key.KeySet
+		kid := func(i int) []byte { return []byte{byte(i), 0x77, byte(i * 3)} }
+		for i := 0; i < 24; i++ {
+			k := must(ed25519.GenerateKey())
+			k.SetKid(kid(i))
+			ks = append(ks, k)
+		}
+		vs, ss := must(ks.Verifiers()), must(ks.Signers())
+		msg := []byte("looked up")
+		var sigs [][]byte
+		for i := range ss {
+			sigs = append(sigs, must(ss[i].Sign(msg)))
+		}
+		signed := must((&cose.SignMessage[[]byte]{Payload: msg}).SignAndEncode(ss[16:], nil))
+		tasks = append(tasks, task{"Lookup/24-keys", func(i int) []byte {
+			idx := (i*5 + 7) % 24
+			v, sg, k := vs.Lookup(kid(idx)), ss.Lookup(kid(idx)), ks.Lookup(kid(idx))
+			if v == nil || sg == nil || k == nil {
+				return []byte(fmt.Sprintf("nil for kid %d", idx))
+			}
+			if v.Verify(msg, sigs[idx]) != nil || !bytes.Equal(sg.Key().Kid(), kid(idx)) || !bytes.Equal(k.Kid(), kid(idx)) {
+				return []byte(fmt.Sprintf("another key's entry for kid %d", idx))
+			}
+			if vs.Lookup([]byte{0xee}) != nil || ss.Lookup([]byte{0xee}) != nil || ks.Lookup([]byte{0xee}) != nil {
+				return []byte("entry for an unknown kid")
+			}
+			if i%4 == 0 { // a COSE_Sign by the last eight keys, verified against the whole list
+				if _, err := cose.VerifySignMessage[[]byte](vs, signed, nil); err != nil {
+					return []byte("sign-verify: " + err.Error())
+				}
+			}
+			return []byte("ok")
+		}})
+	}
+
 	if *onlyFlag != "" {
 		var keep []task
 		for _, t := range tasks {
@@ -477,43 +515,43 @@ func main() {
 		tasks = keep
 	}
 
-	// sequential reference
-	want := make([][][]byte, len(tasks))
+	// concurrent run first, on the instances as constructed (nothing has used them yet: lazily filled fields are filled by
+	// the goroutines, not by a warm-up), one shared instance at a time: all goroutines hammer the same task together
+	// (accesses to one object stay close in time, which is what the race detector's bounded history needs), every
+	// goroutine walking the inputs from its own offset.  The sequential reference is computed afterwards.
+	got := make([][][][]byte, len(tasks)) // [task][goroutine][input]
 	for t := range tasks {
-		want[t] = make([][]byte, *N)
-		for i := 0; i < *N; i++ {
-			want[t][i] = tasks[t].run(i)
-		}
-	}
-	// concurrent run, one shared instance at a time: all goroutines hammer the same task together (accesses to one
-	// object stay close in time, which is what the race detector's bounded history needs), every goroutine walking
-	// the inputs from its own offset
-	var mu sync.Mutex
-	bad := 0
-	for t := range tasks {
+		got[t] = make([][][]byte, *G)
 		var wg sync.WaitGroup
 		start := make(chan struct{})
 		for g := 0; g < *G; g++ {
+			got[t][g] = make([][]byte, *N)
 			wg.Add(1)
 			go func(g int) {
 				defer wg.Done()
 				<-start
 				for i := 0; i < *N; i++ {
 					j := (i + g*7) % *N
-					got := tasks[t].run(j)
-					if !bytes.Equal(got, want[t][j]) {
-						mu.Lock()
-						bad++
-						if bad < 5 {
-							fmt.Printf("MISMATCH task=%s input=%d\n", tasks[t].name, j)
-						}
-						mu.Unlock()
-					}
+					got[t][g][j] = tasks[t].run(j)
 				}
 			}(g)
 		}
 		close(start)
 		wg.Wait()
+	}
+	bad := 0
+	for t := range tasks {
+		for j := 0; j < *N; j++ {
+			want := tasks[t].run(j)
+			for g := 0; g < *G; g++ {
+				if !bytes.Equal(got[t][g][j], want) {
+					bad++
+					if bad < 5 {
+						fmt.Printf("MISMATCH task=%s input=%d\n", tasks[t].name, j)
+					}
+				}
+			}
+		}
 	}
 	fmt.Printf("tasks=%d goroutines=%d ops_per_goroutine=%d total_ops=%d mismatches=%d\n", len(tasks), *G, *N*len(tasks), *G**N*len(tasks), bad)
 	if bad+coldBad > 0 {
